@@ -27,5 +27,5 @@ def queries(tier, prop='C01'):
                 ents = ['sv_rel', 'st_rel'] + (['sv_rel_self', 'sv_rel_copy'] if nb == 0 else [])
                 for e in ents:
                     out.append(dict(entry='q_' + e, cfg={'ELT': elt, 'CAP': cap, 'NA': na, 'NB': nb}, unwind=cap + 3,
-                                    unwindset=uw(cap * esz + 18, cap * esz + 2), budget=120, ub=ub, nofunc=ub))
+                                    unwindset=uw(cap * esz + 18, cap * esz + 2), budget=600, ub=ub, nofunc=ub))
     return out
